@@ -7,7 +7,8 @@ RULE = ("every program TLC enumerates within the bounds (processes x ops over th
         "joins, spawns, interrupts, negative delay) is executed on the real kernel and its log (resumptions, probe callbacks of every event, "
         "refused calls, return/raise of run) compared with the specification's; plus on-the-fly generated larger programs validated by "
         "TLC (KernelTrace). non-trivial = program whose run has >= 3 effects at one instant, an interrupt or failure delivery, a refused "
-        "call or run() raising; counted per distinct program")
+        "call or run() raising; counted per distinct program. Float delays (0.1, 0.2, 0.3, 0.7, ...) are covered by generated programs whose instants "
+        "are replaced by their ranks among the exact float sums t0 + d")
 KINDS = {"sleep": 5, "timeout": 2, "event": 2, "succeed": 2, "spawn": 2, "interrupt": 1.5, "yield": 4, "baddelay": 0.3}
 
 
@@ -17,12 +18,14 @@ def run(ctx, replay=None):
     if ctx.quick:
         kernlib.mc_replay(ctx, "KernelMC_c01.cfg")
         kernlib.gen_validate(ctx, 1500, KINDS)
+        kernlib.gen_validate(ctx, 800, KINDS, label="generated-float-delays", **{"float": kernlib.FLOAT})
     else:
         kernlib.mc_replay(ctx, "KernelMC_c01.cfg", {"Delays = {0, 1}": "Delays = {0, 1, 2}"}, label="KernelMC/c01 3x2 delays 0..2")
         kernlib.mc_replay(ctx, "KernelMC_c01.cfg", {"MaxProc = 3": "MaxProc = 2", "MaxOps = 2": "MaxOps = 3"}, label="KernelMC/c01 2x3")
         kernlib.gen_validate(ctx, 20000, KINDS)
         kernlib.gen_validate(ctx, 5000, KINDS, max_procs=6, max_ops=8, max_events=40, label="generated-large")
-    return ctx.finish(RULE, assumptions=["integer delays; float instants are not modelled in TLA+ (equality/order of float sums is not decided here)"])
+        kernlib.gen_validate(ctx, 10000, KINDS, label="generated-float-delays", **{"float": kernlib.FLOAT})
+    return ctx.finish(RULE, assumptions=["float delays are handled by rank abstraction: the harness tabulates the float sums t + d, the specification decides order and equality of instants"])
 
 
 if __name__ == "__main__":
